@@ -36,6 +36,9 @@ type obs2 struct {
 // observe2 decodes s at level and queries every score view.
 func observe2(w *W, level int, s string) (x obs2) {
 	k := lib.Kind2(level)
+	if lib.AutoMode(s+"#order")%2 == 1 {
+		return observe2SevFirst(w, level, s)
+	}
 	o, err, pan := lib.DecodeAuto(k, s)
 	if pan != nil || err != nil || o.IsNil() {
 		w.Count("valid_vector_not_decoded")
@@ -420,4 +423,79 @@ func replayScore2(r *Run, c Case) {
 			checkEnv2(w, s, &p.V, newKF("C05", "KF-2"), &c05stats{})
 		}
 	}
+}
+
+// observe2SevFirst is observe2 with the opposite query order: top level before the views, severity
+// before score (a severity derived from a remembered score, or a view corrupted by an earlier top-level
+// query, is only visible in one of the two orders).
+func observe2SevFirst(w *W, level int, s string) (x obs2) {
+	k := lib.Kind2(level)
+	o, err, pan := lib.DecodeAuto(k, s)
+	if pan != nil || err != nil || o.IsNil() {
+		w.Count("valid_vector_not_decoded")
+		w.Sample(map[string]string{"not_decoded": s, "kind": k.String(), "err": lib.ErrText(err)})
+		return
+	}
+	x.o = o
+	q := func(v lib.Obj) (float64, string, bool) {
+		_, sv, p1 := v.Severity()
+		f, p2 := v.Score()
+		if p1 != nil || p2 != nil {
+			w.Count("score_panicked")
+			return 0, "", false
+		}
+		return f, sv, true
+	}
+	var ok bool
+	switch level {
+	case spec.LBase:
+		if x.base, x.bSev, ok = q(o); !ok {
+			return
+		}
+	case spec.LTemp:
+		if x.temp, x.tSev, ok = q(o); !ok {
+			return
+		}
+		bv, _, pp := o.BaseView()
+		if pp != nil || bv.IsNil() {
+			w.Count("base_view_unavailable")
+			return
+		}
+		if x.base, x.bSev, ok = q(bv); !ok {
+			return
+		}
+		if eb, ok2 := o.EmbeddedBase(); ok2 && !eb.IsNil() {
+			x.embBase, _ = eb.Score()
+			x.hasEmbBase = true
+		}
+		x.tEmpty, _, _ = o.IsEmpty()
+	case spec.LEnv:
+		if x.env, x.eSev, ok = q(o); !ok {
+			return
+		}
+		bv, _, pp := o.BaseView()
+		tv, _, pp2 := o.TemporalView()
+		if pp != nil || pp2 != nil || bv.IsNil() || tv.IsNil() {
+			w.Count("view_unavailable")
+			return
+		}
+		if x.temp, x.tSev, ok = q(tv); !ok {
+			return
+		}
+		if x.base, x.bSev, ok = q(bv); !ok {
+			return
+		}
+		if eb, ok2 := o.EmbeddedBase(); ok2 && !eb.IsNil() {
+			x.embBase, _ = eb.Score()
+			x.hasEmbBase = true
+		}
+		if et, ok2 := o.EmbeddedTemporal(); ok2 && !et.IsNil() {
+			x.embTemp, _ = et.Score()
+			x.hasEmbT = true
+		}
+		x.tEmpty, _, _ = tv.IsEmpty()
+		x.eEmpty, _, _ = o.IsEmpty()
+	}
+	x.ok = true
+	return
 }
